@@ -35,5 +35,8 @@ for log in sys.argv[1:]:
         meta["confirmed_by_me"] = {"how": "lib/confirm_mutant.sh / lib/lane_mutants.sh in a scratch worktree of /repo HEAD", "unchanged_tree_demo": "passes", "changed_tree_lib_tests": "674 passed", "changed_tree_all_features_build": "ok", "changed_tree_demo": "FAILS"}
         lane = "lane-" in log
         meta["check"] = {"cmd": ("VERIF_REPO=<scratch worktree of /repo HEAD with the patch applied> ./check %s --tier quick (lib/lane_mutants.sh; /repo itself untouched)" if lane else "./check %s --tier quick (patch applied to /repo, undone afterwards)") % prop, "exit": rc, "caught": rc == 1, "violations": [os.path.basename(v) for v in viol][:6], "summary": (summary[0] if summary else "")[:300]}
+        notes = json.load(open(os.path.join(V, "seeded", "NOTES.json"))) if os.path.exists(os.path.join(V, "seeded", "NOTES.json")) else {}
+        if "%s-%s" % (prop, mid) in notes:
+            meta["history"] = notes["%s-%s" % (prop, mid)]
         json.dump(meta, open(os.path.join(dst, "meta.json"), "w"), indent=1)
         print("%s %s: confirmed, check exit %s (%s)" % (prop, mid, rc, "CAUGHT" if rc == 1 else "MISSED"))
